@@ -1,13 +1,16 @@
 """C06 ring perception: the SSSR selection of chython/algorithms/rings.py is a heuristic, so the check is
-  (S) every `sssr` output of the inputs is run through the VERIFIED checker `is_cycle_basis` (evaluated inside Coq);
+  (S) every `sssr` output of the inputs is run through the VERIFIED (sound and complete) checker `is_cycle_basis`,
+      evaluated inside Coq; its verdicts must coincide with those of an independent Python GF(2) oracle;
   (A) the deterministic pieces (_connected_components, _skin_graph, rings_count, not_special_connectivity,
-      _canonic_ring, _ring_scissors, _ring_adjacency, atoms_rings, atoms_rings_sizes, ring marks of calc_labels)
-      are compared with the Coq model on the same inputs (incl. malformed ones for the helpers);
-  search: an independent pure-Python oracle (own Horton minimum cycle basis, own bridge finder, own components)
-      for validity, minimum total size, invariance of the ring-size multiset under renumbering and the marks.
+      _canonic_ring, _ring_scissors, _ring_adjacency, atoms_rings, atoms_rings_sizes, aromatic_rings, ring marks of
+      calc_labels) are compared with the Coq model on the same inputs (incl. malformed ones for the helpers);
+  search: independent pure-Python oracles (own Horton minimum cycle basis, bridge finder, components, 2-core) for validity,
+      minimum total size, invariance of the ring-size multiset under renumbering / insertion order, the marks, canonical
+      spelling, aromatic rings, and coherence of the cached ring views after edits (rebuild from scratch); every ring
+      perception runs under a wall-clock deadline (a perception that does not return is a counterexample).
 The two recorded gap families of the property text (molecules containing a bicyclic core whose three bridges all
-have >= 3 bonds; dense cages) are recognised structurally, counted, and excluded from the minimality / invariance
-comparisons only; validity of the basis is still demanded of them."""
+have >= 3 bonds; dense cages) are OUTSIDE the claimed domain: they are recognised structurally on the input graph,
+counted in the evidence, and no deviation on them is reported."""
 import concurrent.futures as cf
 import itertools
 import os
